@@ -53,6 +53,19 @@ def ir_functions(ir):
     return out
 
 
+def call_conv_mismatches(ir):
+    """call instructions whose calling convention differs from their callee's (undefined behaviour
+    by the LLVM language reference, although the verifier accepts it): [(callee, call cc, callee cc)]"""
+    fs = ir_functions(ir)
+    out = []
+    for line in ir.split("\\n"):
+        m = re.search(r"\bcall\s+(.*?)@\"?([\w.]+)\"?\(", line)
+        if not m or m.group(2) not in fs: continue
+        cc = "fastcc" if "fastcc" in m.group(1).split() else "ccc"
+        if cc != fs[m.group(2)][2]: out.append((m.group(2), cc, fs[m.group(2)][2]))
+    return out
+
+
 def run(tier):
     ck = C.Check("C03", tier)
     proof_ok = ck.prove(extra_trusted=["llvm-as and opt (LLVM 14) run as independent tools decide IR validity; their rules are not modelled"])
@@ -77,6 +90,9 @@ def run(tier):
         if f[2] != "tools=ok":
             bad += 1; ck.violation("invalid-ir:" + f[2].split(":")[0], "LLVM tools reject the IR: " + f[2], src); continue
         fs = ir_functions(irs.get(cid, ["", ""])[1])
+        mm = call_conv_mismatches(irs.get(cid, ["", ""])[1])
+        if mm:
+            bad += 1; ck.violation("call-convention-mismatch", "calls whose calling convention differs from the callee's (undefined behaviour in LLVM IR): %s" % mm[:4], src)
         for name, flags in expect.items():
             want = table.get(flags, "? ?").split(" ")
             got = fs.get(name)
